@@ -27,11 +27,26 @@ public:
         Json p = Json::object();
         GenOpts go; go.min_outs = 0; go.max_outs = 2; go.max_depth = 4; go.max_points = tier == "thorough" ? 300 : 200; go.optimized_rules = w.chance(0.25); go.wavelet_max_dims = 2;
         Json mk = genMake(w, go);
-        p["make"] = mk;
-        int d = (int)mk.geti("dims");
         Json ops = Json::array();
         int nops = w.pick<int>({0, 1, 2, 2, 3, 4, 6});
-        if (mk.geti("outs") > 0 && w.chance(0.8)) { Json o = Json::object(); o["op"] = "load"; o["variant"] = 0.0; ops.push(o); }
+        bool scenario = w.chance(0.15);
+        if (scenario) {
+            // local polynomial grid in 3 dimensions whose hierarchy becomes incomplete: load, adaptive refinement, load again
+            // (the surplus algorithm is then chosen by a completeness flag that the team computes together)
+            mk = Json::object(); mk["family"] = "localp"; mk["dims"] = 3; mk["outs"] = w.range(1, 2); mk["depth"] = w.range(1, 3);
+            mk["rule"] = w.pick<std::string>({"localp", "semi-localp", "localp-zero", "localp-boundary"}); mk["order"] = w.pick<int>({1, 2, 3}); mk["limits"] = Json::array(); mk["max_points"] = 200;
+            int rounds = w.range(1, 3);
+            for (int k = 0; k <= rounds; k++) {
+                Json l = Json::object(); l["op"] = "load"; l["variant"] = 0.0; ops.push(l);
+                if (k == rounds) break;
+                Json rf = Json::object(); rf["op"] = "refine"; rf["tol"] = w.pick<double>({1e-1, 1e-2, 1e-3}); rf["criteria"] = w.pick<std::string>({"classic", "classic", "direction", "fds", "parents"}); rf["output"] = -1;
+                rf["type"] = "iptotal"; rf["min_growth"] = 1; rf["limits"] = Json::array(); rf["prefer_surplus"] = true; rf["scale"] = false; ops.push(rf);
+            }
+            nops = w.range(0, 2);
+        }
+        p["make"] = mk;
+        int d = (int)mk.geti("dims");
+        if (!scenario && mk.geti("outs") > 0 && w.chance(0.8)) { Json o = Json::object(); o["op"] = "load"; o["variant"] = 0.0; ops.push(o); }
         for (int k = 0; k < nops; k++) ops.push(genOp(w, d, true));
         p["ops"] = ops;
         if (w.chance(0.15)) { Json sw = Json::object(); sw["dims"] = w.range(1, 4); sw["particles"] = w.range(1, 9); sw["iterations"] = w.range(1, 4); sw["seed"] = (long long)(w.next() >> 40);
